@@ -848,3 +848,31 @@ Definition s_holdout_fraction : str := str_of_string "holdout_fraction".
 Definition fraction_declared (tbl : list argopt) : Prop :=
   exists o n d, opts_with_dest tbl s_holdout_fraction = [o] /\ opt_kind o = Some KFloat /\ opt_may_be_none o = false
                 /\ opt_default o = LFloat n d /\ 0 <= n <= Zpos d.
+
+(* ---------- calculate_distance_matrix.get_args and main as a whole command (gap review G7.2) ----------
+   The namespace of calculate_distance_matrix: the plain results main() reads (cd_args), --distance-metric (required, a str),
+   --distance-metric-param KEY=VALUE ... (KVAppendAction; None when the option is absent), and the two attributes get_args()
+   stores: metric_cls (what get_class returned, possibly None) and metric_params (the cast parameters). *)
+Record cd_ns (Cls F O : Type) := mk_cd_ns {
+  cd_plain : cd_args;
+  cd_distance_metric : str;                                           (* --distance-metric *)
+  cd_distance_metric_param : option (list (str * str));               (* --distance-metric-param KEY=VALUE ... *)
+  cd_metric_cls : option Cls;
+  cd_metric_params : list (str * pval F O) }.
+Definition cd_set_metric_cls (Cls F O : Type) (a : cd_ns Cls F O) (c : option Cls) : cd_ns Cls F O :=
+  mk_cd_ns (cd_plain a) (cd_distance_metric a) (cd_distance_metric_param a) c (cd_metric_params a).
+Definition cd_set_metric_params (Cls F O : Type) (a : cd_ns Cls F O) (p : list (str * pval F O)) : cd_ns Cls F O :=
+  mk_cd_ns (cd_plain a) (cd_distance_metric a) (cd_distance_metric_param a) (cd_metric_cls a) p.
+(* class lookup among DistanceMetric subclasses, its required-argument annotations, --distance-metric-param cast by them *)
+Definition cd_get_args (Cls F O : Type) (I : introspect Cls) (P : pyprims F O) (raw : cd_ns Cls F O)
+  : result (cd_ns Cls F O) :=
+  dor cp <- resolve I P BDistanceMetric (cd_distance_metric raw) (cd_distance_metric_param raw);
+  Ok (cd_set_metric_params (cd_set_metric_cls raw (fst cp)) (snd cp)).
+Definition cd_with_mk (Scr Th Me Dm : Type) (L : cd_lib Scr Th Me Dm) (mk : result Me) : cd_lib Scr Th Me Dm :=
+  mk_cd_lib (cd_load_screen L) (cd_load_thetas L) (cd_concat_thetas L) mk (cd_calculate L).
+(* the whole command: the metric is the class named by --distance-metric instantiated with the cast --distance-metric-param values *)
+Definition cli_calculate_distance_matrix_cmd (Cls F O Scr Th Me Dm : Type) (I : introspect Cls) (P : pyprims F O)
+  (construct : Cls -> list (str * pval F O) -> result Me) (L : cd_lib Scr Th Me Dm) (raw : cd_ns Cls F O)
+  : result (list (path * Dm)) :=
+  dor a <- cd_get_args I P raw;
+  cli_calculate_distance_matrix (cd_with_mk L (instantiate construct (cd_metric_cls a) (cd_metric_params a))) (cd_plain a).
